@@ -138,4 +138,6 @@ impl Src for EnumSrc {
     fn u128(&mut self) -> u128 { self.u64() as u128 }
     fn bool(&mut self) -> bool { self.pick(2) == 1 }
     fn assume(&mut self, c: bool) { if !c { self.rejected = true; std::panic::panic_any(Rejected); } }
+    /// every value of 0..n is a separate choice (not the small u64 domain filtered by an assumption)
+    fn below(&mut self, n: usize) -> usize { self.pick(n) }
 }
